@@ -41,7 +41,10 @@ class P(ServeProp):
                 body = b"".join(wf) + b"--" + bd.encode() + b"--\r\n"
                 return "POST", t, ["Content-Type: multipart/form-data; boundary=" + bd, "Content-Length: %d" % len(body)], body
             body = bd.encode() + b"".join(b"\r\n" + p + b"\r\n" + bd.encode() for p in parts)
-            hs = ["Content-Type: multipart/form-data; boundary=" + bd]
+            # the boundary parameter in other spellings, missing, empty: each takes its own error branch of the controller
+            ct = rnd.choice(["multipart/form-data; boundary=" + bd] * 4 + ["multipart/form-data; Boundary=" + bd, "multipart/form-data; BOUNDARY=" + bd, "multipart/form-data",
+                             "multipart/form-data; boundary=", "Multipart/Form-Data; boundary=" + bd, "multipart/form-data;boundary=" + bd, "multipart/form-data; charset=x; boundary=" + bd])
+            hs = ["Content-Type: " + ct]
             return "POST", t, hs, body
         if "url-encoded" in t:
             body = rnd.choice([b"a=1&b=2", b"", b"a=%26&b=%zz", b"\xff\xfe=1", b"a=" + "é😀".encode(), b"a\x00=b", b"=", b"&&&", b"a=b=c"])
@@ -69,6 +72,13 @@ class P(ServeProp):
                     for _ in range(k): b = gs.mutate_request(rnd, b)
                     return b
                 out.append(gs.serve_case(rnd, kind=kind, raw_req=mut, opts=opts, meta="mut=1"))
+            elif r < 0.68:
+                # Content-Length values at the edges of usize and beyond, with and without a body: the header is client text
+                cl = rnd.choice(["0", "1", "9", "10", "4294967296", "9223372036854775807", "9223372036854775808", "18446744073709551615", "18446744073709551614",
+                                 "18446744073709551616", "-1", "+5", " 7", "7 ", "1e3", "0x10", "", "99999999999999999999999999"])
+                m, tg, hs, body = self.form_request(rnd) if rnd.random() < 0.6 else ("GET", "/", [], b"")
+                hs = [h for h in hs if not h.lower().startswith("content-length")] + ["Content-Length: " + cl]
+                out.append(gs.serve_case(rnd, kind=kind, target=tg, method=m, headers=hs, body=body if rnd.random() < 0.8 else b"", opts=opts, meta="cl=1"))
             elif r < 0.72:
                 tg = rnd.choice(["x", "?x", "#x", ":x/", ":80/a.txt", "@/a.txt", "http://h/a.txt", "http://h:x/a", "*", "", "localhost:99999999999999999999/", "a b",
                                  "//", "/%", "/\x7f", "[::1]:x/", "u:p@h:1/"])
